@@ -7,6 +7,7 @@ pub mod model;
 pub mod gen;
 pub mod engine;
 pub mod history;
+pub mod realfs;
 pub mod drive;
 pub mod oracle;
 pub mod props;
@@ -38,6 +39,7 @@ fn lookup(id: &str) -> Option<(RunFn, ReplayFn)>
         "C09" => Some((props::audits::run_c09, props::audits::replay_c09)),
         "C17" => Some((props::c17::run, props::c17::replay)),
         "C18" => Some((props::c18::run, props::c18::replay)),
+        "C19" => Some((props::c19::run, props::c19::replay)),
         "C20" => Some((props::audits::run_c20, props::audits::replay_c20)),
         "C10" => Some((props::c10::run, props::c10::replay)),
         "C11" => Some((props::c11::run, props::c11::replay)),
